@@ -381,7 +381,9 @@ async fn adversary(sc: Script, pids: Arc<Mutex<(u64, u64)>>) {
                     // the adversary does its honest best with the cookie it has
                     let mut m = auth_message(s, &peer(si), pending, true, 0);
                     use ractor_cluster::verif::auth_proto::authentication_message::Msg;
-                    let d = ractor_cluster::verif::challenge_digest(WRONG, pending.unwrap_or(0));
+                    // (the cookie it has may be a near miss: same first block, same prefix, one byte more)
+                    let wc = [WRONG, WRONG_TAIL, WRONG_PREFIX, WRONG_LONGER][((serial as u64 + tag) % 4) as usize];
+                    let d = ractor_cluster::verif::challenge_digest(wc, pending.unwrap_or(0));
                     match m.msg.as_mut() {
                         Some(Msg::ClientChallenge(c)) => c.digest = d,
                         Some(Msg::ServerAck(c)) => c.digest = d,
